@@ -1755,6 +1755,13 @@ def _inline_call_impl(self, callee, f, args, kwargs, st):
     for dnf, v, _ in alts:
         for conj in dnf:
             flat.append((conj, v))
+    # the caller goes on only on the paths on which the helper returned: what the helper tested before returning (a check that raises otherwise)
+    # holds from here on
+    ret_dnf = ()
+    for dnf_, _, _ in alts:
+        ret_dnf = dnf_or(ret_dnf, dnf_) if ret_dnf else dnf_
+    if ret_dnf:
+        st.dnf = ret_dnf
     res = _build_gated(flat, base_len) if len({v for _, v in flat}) > 1 else flat[0][1]
     if res is None:
         res = ("phi", tuple(v for _, v in flat))
